@@ -650,6 +650,24 @@ m("c11-merge-naked-delete-keeps-start-tail-from-cursor", "C11", "nomt/src/merkle
         ("nomt/src/merkle/seek.rs",
          "                if key_path == Some(&overlay_key) {\n                    // The leaf data has been updated in the overlay.\n                    beatree_leaf_idx += 1;\n                }",
          "                final_leaf_data_collection\n                    .extend_from_slice(&collected_leaf_data[start_idx..beatree_leaf_idx]);\n                if key_path == Some(&overlay_key) {\n                    // The leaf data has been updated in the overlay.\n                    beatree_leaf_idx += 1;\n                }\n                start_idx = beatree_leaf_idx;")])
+# ---- C04 O17: a WAL blob is only written into an empty WAL file (either half of seed C04-j alone is harmless) ----
+m("benign-wal-no-post-meta-truncate", "C04", "nomt/src/bitbox/mod.rs",
+  "        writeout::truncate_wal(&self.db.shared.wal_fd, false)?;\n        Ok(())",
+  "        Ok(())",
+  None)
+m("benign-wal-no-post-meta-truncate-c03", "C03", "nomt/src/bitbox/mod.rs",
+  "        writeout::truncate_wal(&self.db.shared.wal_fd, false)?;\n        Ok(())",
+  "        Ok(())",
+  None)
+m("benign-wal-positional-write", "C04", "nomt/src/bitbox/writeout.rs",
+  "pub(super) fn write_wal(mut wal_fd: &File, wal_blob: &[u8]) -> std::io::Result<()> {\n    wal_fd.set_len(0)?;\n    wal_fd.seek(SeekFrom::Start(0))?;\n    wal_fd.write_all(wal_blob)?;",
+  "#[allow(unused_imports)]\npub(super) fn write_wal(wal_fd: &File, wal_blob: &[u8]) -> std::io::Result<()> {\n    use std::os::unix::fs::FileExt as _;\n    wal_fd.write_all_at(wal_blob, 0)?;\n    wal_fd.set_len(wal_blob.len() as u64)?;",
+  None)
+m("c04-wal-overwritten-in-place", "C04", "nomt/src/bitbox/writeout.rs",
+  "pub(super) fn write_wal(mut wal_fd: &File, wal_blob: &[u8]) -> std::io::Result<()> {\n    wal_fd.set_len(0)?;\n    wal_fd.seek(SeekFrom::Start(0))?;\n    wal_fd.write_all(wal_blob)?;",
+  "#[allow(unused_imports)]\npub(super) fn write_wal(wal_fd: &File, wal_blob: &[u8]) -> std::io::Result<()> {\n    use std::os::unix::fs::FileExt as _;\n    wal_fd.write_all_at(wal_blob, 0)?;\n    wal_fd.set_len(wal_blob.len() as u64)?;",
+  "C04|O17|bitbox::writeout::write_wal|wal-written-into-empty-file",
+  also=[("nomt/src/bitbox/mod.rs", "        writeout::truncate_wal(&self.db.shared.wal_fd, false)?;\n        Ok(())", "        Ok(())")])
 # ---- C09 E1/E2: the persistent form of a reverse delta keeps `absent` and `empty value` apart ----
 m("c09-delta-decode-erase-as-empty", "C09", "nomt/src/rollback/delta.rs",
   "            let preemted = priors.insert(key_path, None).is_some();",
